@@ -245,8 +245,11 @@ def rules_cascade(run):
         lp = q.enclosing(c, ast.For)
         tv = lp.target.id if lp is not None and isinstance(lp.target, ast.Name) else '?'
 
+        st_alias = [x.targets[0].id + '.name' for x in q.walk(F, False) if isinstance(x, ast.Assign) and isinstance(x.targets[0], ast.Name)
+                    and q.unparse(x.value) == 'self.state_for(%s)' % np_]
+
         def classify(op, l, r_, e):
-            names = (np_, 'state.name')
+            names = (np_,) + tuple(st_alias)
             if op == '==' and {l, r_} & {tv + '.source'} and {l, r_} & set(names):
                 return 'FROM'
             if op == '==' and {l, r_} & {tv + '.target'} and {l, r_} & set(names):
@@ -289,7 +292,8 @@ def rules_cascade(run):
             if a[0] == 'in' and a[1] == npar and a[2].replace(' ', '') in ('[%s]+self.descendants_for(%s)' % (nm, nm), 'self.descendants_for(%s)+[%s]' % (nm, nm)):
                 good = True
     run.check(good, r, mv.short, 'refuses to move a state into itself or one of its descendants', 'missing test', M)
-    hm = [n for c, f, k, n in prog.direct_writes(mv) if f == 'memory' and q.unparse(n.targets[0]) == 'state.memory']
+    mv_alias = [x.targets[0].id for x in q.walk(M, False) if isinstance(x, ast.Assign) and isinstance(x.targets[0], ast.Name) and q.unparse(x.value) == 'self.state_for(%s)' % nm]
+    hm = [n for c, f, k, n in prog.direct_writes(mv) if f == 'memory' and q.unparse(n.targets[0]) in [a_ + '.memory' for a_ in mv_alias]]
     run.check(len(hm) == 1 and any('HistoryStateMixin' in a[1] for a in guard_atoms(hm[0])), r, mv.short, 'a moved history state forgets its memory', 'missing', M)
     ws = {(f, k) for c, f, k, n in prog.direct_writes(mv) if c == 'Statechart'}
     app = [c for c in q.calls(M) if isinstance(c.func, ast.Attribute) and c.func.attr == 'append' and 'self._children' in q.unparse(c.func.value)
